@@ -107,6 +107,61 @@ def is_canonical_E(E):
     return extlib.is_nondegenerate(E)
 
 
+def sys_axis_cases():
+    """extlib.systematic_merge_cases() restricted to the axes of this property (slice / time / vector)."""
+    return [c for c in extlib.systematic_merge_cases()
+            if extlib.merge_axis_kind(c['dim'], c['exts'][0]['sdim']) is not None and c['exts'][0]['sdim'] is not None]
+
+
+def merged_truth(mc):
+    """The CANONICAL extension that merging the inputs of merge case mc must give, built from the generator's values only:
+    position i on the merge axis reads input i (documented layout, extlib.den), every key encoded at its simplest class.
+    None when the result leaves the domain (trailing singleton shape) or holds no key."""
+    import random
+    exts, dim = mc['exts'], mc['dim']
+    E0 = exts[0]
+    sd = E0['sdim']
+    ax = extlib.merge_axis_kind(dim, sd)
+    sh = list(E0['shape'])
+    while len(sh) <= dim:
+        sh.append(1)
+    sh[dim] = len(exts)
+    if extlib.trailing1(sh):
+        return None
+    d_out = extlib.dims({'shape': sh, 'sdim': sd})
+    ents = {}
+    for k in extlib.keys_of(*exts):
+        f = {}
+        for p in extlib.grid(d_out):
+            q = list(p)
+            i = q[ax]
+            q[ax] = 0
+            f[p] = copy.deepcopy(extlib.den(exts[i], k, tuple(q)))
+        e = extlib.encode(random.Random(0), sh, sd, f, 0.0)
+        if e is not None:
+            ents[k] = e
+    if not ents:
+        return None
+    return extlib.mk_E(sh, sd, copy.deepcopy(E0['aff']), ents)
+
+
+def sys_roundtrip_cases():
+    """DETERMINISTIC block: the merged truth of every systematic merge case, round-tripped along the SAME dim.  Present in
+    every seed: every (axis kind x dimensionality x class x value pattern) cell.  Identical extensions are kept once."""
+    out, seen = [], set()
+    for mc in sys_axis_cases():
+        E = merged_truth(mc)
+        if E is None or mc['dim'] not in rt_dims(E):
+            continue
+        key = repr((E['shape'], E['sdim'], E['entries'], mc['dim']))
+        if key in seen:
+            continue
+        seen.add(key)
+        out.append({'kind': 'sysrt/' + '/'.join(mc['kind'].split('/')[1:3] + [E['entries'][0][1]]), 'ext': E, 'dim': mc['dim'],
+                    'with_aff': len(out) % 2 == 0, 'with_sd': len(out) % 3 == 0, 'from': mc['kind']})
+    return out
+
+
 def _no_timeout(e):
     """The driver's per-case alarm must never be swallowed by a broad handler (it derives from BaseException in newer
     drivers; this keeps older ones honest too)."""
@@ -376,6 +431,10 @@ def oracle_ext_roundtrip(case, obs):
     return '[%s] %s' % msgs[0]
 
 
+def _first(msgs):
+    return '[%s] %s' % msgs[0] if msgs else None
+
+
 def msg_tag(msg):
     return msg[1:msg.index(']')] if msg and msg.startswith('[') and ']' in msg else 'untagged'
 
@@ -399,15 +458,15 @@ class ExtRoundtripPart:
 
     @staticmethod
     def gen_cases(rng, tier):
-        n = 250 if tier == 'quick' else 3000
-        cases = []
+        n = 180 if tier == 'quick' else 3000
+        cases = sys_roundtrip_cases()          # deterministic, every seed
         for _ in range(n):
             E = gen_canonical_ext(rng, tier)
             for dim in rt_dims(E):
                 cases.append({'kind': 'ext-rt/%dD/%s' % (len(E['shape']), 'slice' if dim == E['sdim'] else ('time' if dim == 3 else 'vector')),
                               'ext': E, 'dim': dim, 'with_aff': rng.random() < 0.5, 'with_sd': rng.random() < 0.5})
         # the (X,Y,Z,1,V) family explicitly (time axis singular: the F4 neighbourhood) and 5-D with T,V >= 2 along time
-        for _ in range(40 if tier == 'quick' else 300):
+        for _ in range(25 if tier == 'quick' else 300):
             sd = rng.choice([0, 1, 2])
             sh = [rng.randint(1, 2) for _ in range(3)] + [rng.choice([1, 2, 3]), rng.randint(2, 3)]
             sh[sd] = rng.randint(2, 3)
@@ -416,7 +475,7 @@ class ExtRoundtripPart:
                 cases.append({'kind': 'ext-rt/5D-forced/%s' % ('slice' if dim == sd else ('time' if dim == 3 else 'vector')),
                               'ext': E, 'dim': dim, 'with_aff': rng.random() < 0.5, 'with_sd': rng.random() < 0.5})
         # 3-D pieces that carry per-slice-varying meta data: 4-D along time, (X,Y,Z,1,V) along the vector axis
-        for _ in range(60 if tier == 'quick' else 400):
+        for _ in range(30 if tier == 'quick' else 400):
             sd = rng.choice([0, 1, 2])
             sh = [rng.randint(1, 2) for _ in range(3)]
             sh[sd] = rng.randint(2, 3)
@@ -462,6 +521,147 @@ class ExtRoundtripPart:
             yield c
 
 
+# ------------------------------------------------------------------------------------------------ extension level: merge then split
+
+def run_merge_split(case):
+    """from_sequence(inputs, dim) then get_subset(dim, i) for every i.  Observation: the pieces (or the first exception with
+    the operation that raised it), plus the clauses about the inputs (snapshot before / live after, second merge)."""
+    np, dcmmeta = extlib._imports()
+    stage = 'build'
+    try:
+        exts = [extlib.build_ext(E) for E in case['exts']]
+        snaps = [snapshot_ext(x) for x in exts]               # BEFORE the merge
+        stage = 'merge'
+        merged = dcmmeta.DcmMetaExtension.from_sequence(exts, case['dim'])
+        stage = 'split'
+        pieces = [merged.get_subset(case['dim'], i) for i in range(len(exts))]
+        stage = 'observe'
+        out = {'pieces': [extlib.ext_to_json(p) for p in pieces], 'merged': extlib.ext_to_json(merged)}
+        out['pieces_valid'] = [snapshot_ext(p)['valid'] for p in pieces]
+    except Exception as e:          # noqa: BLE001
+        _no_timeout(e)
+        return _err_obs(e, stage)
+    live = []
+    for x in exts:
+        try:
+            live.append(snapshot_ext(x))
+        except Exception as e:      # noqa: BLE001
+            _no_timeout(e)
+            live.append({'valid': False, 'unreadable': type(e).__name__})
+    out['pieces_changed'] = [i for i, (a, b) in enumerate(zip(snaps, live)) if a != b]
+    out['pieces_invalid'] = [i for i, b in enumerate(live) if not b['valid']]
+    try:
+        m2 = dcmmeta.DcmMetaExtension.from_sequence(exts, case['dim'])
+        out['second'] = {'same': extlib.ext_to_json(m2) == out['merged']}
+    except Exception as e:          # noqa: BLE001
+        _no_timeout(e)
+        out['second'] = {'exc': type(e).__name__, 'msg': str(e)[:200]}
+    return out
+
+
+def merge_split_to_coq(case, obs):
+    o = '(Ok %s)' % clist(extlib.ext_to_coq(p) for p in obs['pieces']) if 'pieces' in obs else '(Err %s)' % obs.get('err', 'ECrash')
+    return '(mk_ems_case %s %s %s)' % (clist(extlib.ext_to_coq(E) for E in case['exts']), cnat(case['dim']), o)
+
+
+def merge_split_messages(case, obs):
+    exts, dim = case['exts'], case['dim']
+    if 'err' in obs:
+        return [('raised', '%s raised %s in merge along %d then split: %s' % (
+            {'split': 'get_subset', 'merge': 'from_sequence'}.get(obs.get('stage'), obs.get('stage')), obs.get('exc'), dim, obs.get('msg')))]
+    out = []
+    P = obs['pieces']
+    if len(P) != len(exts):
+        return [('count', '%d inputs merged, %d pieces' % (len(exts), len(P)))]
+    for i, (X, Pi) in enumerate(zip(exts, P)):
+        if Pi['shape'] != trimmed(X['shape']):
+            out.append(('shape', 'piece %d has shape %r, input %d has %r' % (i, Pi['shape'], i, X['shape'])))
+            continue
+        if Pi['sdim'] != X['sdim']:
+            out.append(('slice-dim', 'piece %d has slice dim %r, input %r' % (i, Pi['sdim'], X['sdim'])))
+        dP = extlib.dims(Pi)
+        bad = None
+        for k in extlib.keys_of(X, Pi):
+            for p in extlib.grid(dP):
+                if extlib.den(Pi, k, p) != extlib.den(X, k, p):
+                    bad = (k, p, extlib.den(Pi, k, p), extlib.den(X, k, p))
+                    break
+            if bad:
+                break
+        if bad:
+            out.append(('lookup', 'merge then split: piece %d key %r at %r reads %r, input %d reads %r' % ((i,) + bad[:3] + (i, bad[3]))))
+        if not obs['pieces_valid'][i]:
+            out.append(('invalid', 'piece %d fails check_valid' % i))
+    return out + input_messages(obs)
+
+
+def oracle_merge_split(case, obs):
+    if 'crash' in obs:
+        return '[harness] %s %s' % (obs.get('crash'), obs.get('msg'))
+    return _first(merge_split_messages(case, obs))
+
+
+class MergeSplitPart:
+    NAME = 'mergesplit'
+    CORR_REQUIRE = ('From DV Require Import Common.Jv Ext.Types Ext.Model Ext.Corr Orient.Model Wrapper.Model Wrapper.Corr '
+                    'Ext.ProofsRoundtrip Ext.ProofsRoundtripCorr.')
+    CORR_CASE_TYPE = 'ems_case'
+    CORR_CHECK = 'check_ems'
+    CORR_SHOW = 'show_ems'
+    SHARD = 80
+    IMPL_TIMEOUT = 30
+    RULE = ('the DETERMINISTIC block extlib.systematic_merge_cases() restricted to the slice / time / vector axes (axis kind x input '
+            'dimensionality 3-5 incl. (X,Y,Z,1,V) x every valid nondegenerate class of the key in the inputs, canonical or not, x five '
+            'value patterns; every seed contains all of them) plus random merge cases of the C03 generator on those axes with equal '
+            'slice normals: from_sequence, then get_subset for every index; every piece must read, at every position, what the input '
+            'at that place reads (generator values, documented layout), have its shape and slice dim; inputs snapshot before the merge '
+            'and compared afterwards, merged twice; non-trivial = some input key in a varying class')
+
+    @staticmethod
+    def gen_cases(rng, tier):
+        cases = [dict(c, aff=None, sdim_arg=None) for c in sys_axis_cases()]
+        n = 60 if tier == 'quick' else 1200
+        while n > 0:
+            c = extlib.gen_merge_case(rng, tier, dim=rng.choice([0, 1, 2, 3, 3, 4, 4]))
+            E0 = c['exts'][0]
+            out_sh = list(E0['shape']) + [1] * (c['dim'] + 1 - len(E0['shape']))
+            if (E0['sdim'] is None or extlib.merge_axis_kind(c['dim'], E0['sdim']) is None or extlib.trailing1(E0['shape'])
+                    or extlib.trailing1(out_sh[:c['dim']] + [2] + out_sh[c['dim'] + 1:])
+                    or any(E['aff'] != E0['aff'] or E['shape'] != E0['shape'] for E in c['exts'])
+                    or not all(extlib.is_nondegenerate(E) for E in c['exts'])
+                    or (c['dim'] < len(E0['shape']) and E0['shape'][c['dim']] != 1)):
+                continue
+            cases.append({'kind': 'ms/' + c['kind'], 'exts': c['exts'], 'dim': c['dim']})
+            n -= 1
+        return cases
+
+    run_impl = staticmethod(run_merge_split)
+    coq_case = staticmethod(merge_split_to_coq)
+    oracle = staticmethod(oracle_merge_split)
+
+    @staticmethod
+    def signature(case, obs, msg):
+        extra = '/%s/exc:%s' % (obs.get('stage'), obs.get('exc')) if 'err' in obs else ''
+        return 'ext-ms/%s%s' % (msg_tag(msg), extra)
+
+    @staticmethod
+    def nontrivial(case, obs):
+        return any(c != 'GConst' for E in case['exts'] for _, c, _ in E['entries'])
+
+    @staticmethod
+    def shrink(case):
+        if len(case['exts']) > 2:
+            for i in range(len(case['exts'])):
+                c = copy.deepcopy(case)
+                del c['exts'][i]
+                yield c
+        for k in extlib.keys_of(*case['exts']):
+            c = copy.deepcopy(case)
+            for E in c['exts']:
+                E['entries'] = [e for e in E['entries'] if e[0] != k]
+            yield c
+
+
 # ------------------------------------------------------------------------------------------------ image level: chains
 
 def gen_chain_wrapper(rng, tier):
@@ -484,6 +684,27 @@ def gen_chain_case(rng, tier):
     dims_ok = rt_dims(W['ext'])
     dims = [rng.choice(dims_ok) for _ in range(rng.randint(1, maxlen))]
     return {'kind': 'chain/%dD/len%d' % (len(W['img']['shape']), len(dims)), 'affine': kind, 'w': W, 'dims': dims}
+
+
+def sys_chain_cases():
+    """DETERMINISTIC image-level block: one wrapper per (axis kind, dimensionality, canonical class of the merged key) cell of
+    sys_roundtrip_cases(), a single round trip along that axis; affines drawn from a FIXED generator (same in every seed)."""
+    import random
+    out, seen = [], set()
+    for n, c in enumerate(sys_roundtrip_cases()):
+        E = c['ext']
+        cell = (extlib.merge_axis_kind(c['dim'], E['sdim']), len(E['shape']), E['entries'][0][1], 1 in E['shape'][3:])
+        if cell in seen:
+            continue
+        seen.add(cell)
+        r = random.Random(1000 + n)
+        kind = ['diag', 'perm', 'oblique', 'shear'][len(out) % 4]
+        A = imglib.gen_img_affine(r, kind, keep=E['sdim'])
+        X = dict(E, aff=A)
+        W = {'img': imglib.mk_I(r, list(E['shape']), A, E['sdim'], 1000 * (len(out) % 20)), 'ext': X}
+        out.append({'kind': 'syschain/%dD/%s' % (len(E['shape']), axis_name(E, c['dim'])), 'affine': kind, 'w': W, 'dims': [c['dim']],
+                    'from': c['from']})
+    return out
 
 
 def gen_nested_case(rng, tier):
@@ -790,10 +1011,6 @@ def nested_messages(case, obs):
     return out
 
 
-def _first(msgs):
-    return '[%s] %s' % msgs[0] if msgs else None
-
-
 def oracle_chain(case, obs):
     if 'crash' in obs:
         return '[harness] %s %s' % (obs.get('crash'), obs.get('msg'))
@@ -828,7 +1045,7 @@ class ChainPart:
 
     @staticmethod
     def gen_cases(rng, tier):
-        return [gen_chain_case(rng, tier) for _ in range(120 if tier == 'quick' else 1500)]
+        return sys_chain_cases() + [gen_chain_case(rng, tier) for _ in range(80 if tier == 'quick' else 1500)]
 
     run_impl = staticmethod(run_chain)
     coq_case = staticmethod(chain_to_coq)
@@ -873,7 +1090,7 @@ class NestedPart:
 
     @staticmethod
     def gen_cases(rng, tier):
-        return [gen_nested_case(rng, tier) for _ in range(80 if tier == 'quick' else 800)]
+        return [gen_nested_case(rng, tier) for _ in range(60 if tier == 'quick' else 800)]
 
     run_impl = staticmethod(run_nested)
     coq_case = staticmethod(nested_to_coq)
@@ -896,7 +1113,7 @@ class NestedPart:
             yield c
 
 
-PARTS = [ExtRoundtripPart, ChainPart, NestedPart]
+PARTS = [ExtRoundtripPart, MergeSplitPart, ChainPart, NestedPart]
 
 
 # source tie (integrator): the pure helper functions of the extension algebra are TRANSLATED from the Python AST on every run
@@ -919,3 +1136,21 @@ TABLES = sorted(set(list(TABLES) + ['t_src_state', 't_content', 't_cli']))
 # dictionary is proved equal to the translation (Props/SRCsubset.v)
 COQ_PROPS = list(COQ_PROPS) + ['Props/SRCsubset.v']
 THEOREMS = list(THEOREMS) + ['SRC_copy_slice_step', 'SRC_copy_slice']
+
+
+# source tie, stage C2 (integrator): _copy_sample TRANSLATED in state-passing form; copy_sample_k folded over the source class dictionary
+# is proved equal to the translation (Props/SRCsample.v)
+COQ_PROPS = list(COQ_PROPS) + ['Props/SRCsample.v']
+THEOREMS = list(THEOREMS) + ['SRC_copy_sample_step', 'SRC_copy_sample']
+
+
+# source tie, stage C3 (integrator): get_subset as a whole TRANSLATED (class-major) and proved to produce, on to_content e, a content that
+# Holds exactly the hand model's get_subset result (Props/SRCgetsubset.v, success-case form)
+COQ_PROPS = list(COQ_PROPS) + ['Props/SRCgetsubset.v']
+THEOREMS = list(THEOREMS) + ['SRC_get_subset_content', 'SRC_get_subset']
+
+
+# source tie, stage D (integrator): _insert_slice TRANSLATED in state-passing form and proved a refinement of insert_slice_k for the five
+# varying classes (Props/SRCinsert.v); the ('global','const') path is translated and executed against the code only
+COQ_PROPS = list(COQ_PROPS) + ['Props/SRCinsert.v']
+THEOREMS = list(THEOREMS) + ['SRC_insert_slice', 'SRC_insert_non_slice', 'SRC_insert_sample']
